@@ -12,6 +12,7 @@ trap restore EXIT
 ids="$*"; [ -z "$ids" ] && ids=$(ls seeded)
 for id in $ids; do
   prop=$(python3 -c "import json;print(json.load(open('seeded/$id/meta.json'))['property'])")
+  if python3 -c "import json,sys;sys.exit(0 if 'status' in json.load(open('seeded/$id/meta.json')) else 1)"; then echo -e "$id\t$prop\tOBSOLETE" | tee -a "$out"; continue; fi
   git -C $R apply "$PWD/seeded/$id/patch.diff" || { echo -e "$id\t$prop\tAPPLY-FAILED" | tee -a "$out"; continue; }
   t0=$(date +%s); log="build/seed-$id.log"
   REPO=$R ./check "${SEED_PROP:-$prop}" --tier ${SEED_TIER:-quick} >"$log" 2>&1; rc=$?
